@@ -822,13 +822,18 @@ theorem eCmp_VV (st : St) (a b r : Win) (f : BinF) (h : a.len = 1 ↔ b.len = 1)
   · have hb : b.len ≠ 1 := fun hb => ha (h.mpr hb)
     simp [eCmp, kCmpVV, isSc, ha, hb]
 
-theorem eOpIncr_SV (st : St) (a b incr : Win) (f fv : BinF) (ha : a.len = 1) (hb : b.len ≠ 1) :
-    eOpIncr st a b incr f fv = (do kIncrSV st (← st.rd a 1 0) b incr f accAdd) := by
-  simp [eOpIncr, isSc, ha, hb]
+/-- `E.<Op>Incr` refuses a length-one increment when exactly one operand is a scalar -/
+theorem eOpIncr_refuses (st : St) (a b incr : Win) (f fv : BinF) (h : (a.len = 1 ∧ b.len ≠ 1) ∨ (b.len = 1 ∧ a.len ≠ 1))
+    (hi : incr.len = 1) : eOpIncr st a b incr f fv = .error (.err "Cannot increment on scalar increment") := by
+  rcases h with ⟨ha, hb⟩ | ⟨hb, ha⟩ <;> simp [eOpIncr, isSc, ha, hb, hi] <;> rfl
 
-theorem eOpIncr_VS (st : St) (a b incr : Win) (f fv : BinF) (ha : a.len ≠ 1) (hb : b.len = 1) :
+theorem eOpIncr_SV (st : St) (a b incr : Win) (f fv : BinF) (ha : a.len = 1) (hb : b.len ≠ 1) (hi : incr.len ≠ 1) :
+    eOpIncr st a b incr f fv = (do kIncrSV st (← st.rd a 1 0) b incr f accAdd) := by
+  simp [eOpIncr, isSc, ha, hb, hi]
+
+theorem eOpIncr_VS (st : St) (a b incr : Win) (f fv : BinF) (ha : a.len ≠ 1) (hb : b.len = 1) (hi : incr.len ≠ 1) :
     eOpIncr st a b incr f fv = (do kIncrVS st a (← st.rd b 1 0) incr f accAdd) := by
-  simp [eOpIncr, isSc, ha, hb]
+  simp [eOpIncr, isSc, ha, hb, hi]
 
 theorem eOpIncr_VV (st : St) (a b incr : Win) (f fv : BinF) (ha : a.len ≠ 1) (hb : b.len ≠ 1) :
     eOpIncr st a b incr f fv = kIncrVV st a b incr fv accAdd := by
